@@ -8,7 +8,7 @@ M=$1; RUN=$2; PKG=${3:-.}
 W=$(mktemp -d /tmp/mutconfirm-XXXX)
 git -C /repo worktree add -q --detach "$W/wt" HEAD || exit 2
 cd "$W/wt"
-for f in "$M"/*_test.go; do [ -e "$f" ] && cp "$f" "$PKG/"; done
+mkdir -p "$PKG"; for f in "$M"/*_test.go; do [ -e "$f" ] && cp "$f" "$PKG/"; done
 echo "== without patch: demo must PASS"
 go test -vet=off -count=1 -run "$RUN" "./$PKG" 2>&1 | tail -3
 echo "== apply patch"
